@@ -36,6 +36,7 @@ INST = lambda name, *fs: ["o", name, list(fs)]
 L = lambda *xs: ["l", list(xs)]
 VALUES = [
     ("null", "null", None), ("i0", "0", cI(0)), ("i1", "1", cI(1)), ("i5", "5", cI(5)), ("ineg", "(-1)", cI(-1)), ("i6", "6", cI(6)),
+    ("ibig1", "((2^70+1)-2^70)", cI(1)), ("ihuge", "(2^70)", cI(2 ** 70)),
     ("f1", "1.0", cF(1.0)), ("f15", "1.5", cF(1.5)), ("q12", "(1/2)", cQ(Fraction(1, 2))), ("q34", "(3/4)", cQ(Fraction(3, 4))),
     ("sx", '"x"', ["s", "x"]), ("s0", '""', ["s", ""]), ("sab", '"ab"', ["s", "ab"]),
     ("l0", "[]", L()), ("l1", "[1]", L(cI(1))), ("l12", "[1, 2]", L(cI(1), cI(2))), ("l123", "[1, 2, 3]", L(cI(1), cI(2), cI(3))),
